@@ -302,16 +302,18 @@ class _Flattener(object):
             raise OutOfModel('location visited twice')
         node = Node(tuple(location), tname)
         variables = t.get('variables') or {}
+        params_env = env
         if variables:
-            # %(v)s with v a component variable is left to the runtime; not modelled. Variable VALUES are ordinary fields.
-            def mentions(value):
-                if isinstance(value, dict):
-                    return any(mentions(x) for x in value.values())
-                if isinstance(value, list):
-                    return any(mentions(x) for x in value)
-                return isinstance(value, str) and any(('%%(%s)s' % v) in value for v in variables)
-            if any(mentions(t[k]) for k in t if k != 'signature') or any(v in env for v in variables):
-                raise OutOfModel('reference to a component variable')
+            # Variables are private to the component: inside the component's own fields %(v)s stays as it is (the runtime
+            # resolves it); the caller cannot set them and they play no role in the arguments the caller writes.
+            for v in variables:
+                if v in env:
+                    raise Invalid('variable-shadows-parameter', '%s of %s' % (v, tname))
+                if v == 'replica':
+                    raise OutOfModel('variable called replica')
+            env = dict(env)
+            for v in variables:
+                env[v] = [Lit('%%(%s)s' % v)]
         fields = []
         arguments = None
 
@@ -363,7 +365,7 @@ class _Flattener(object):
                 tokens.append(('REF', path, it.method))
                 used_origins.add(it.origin)
                 self.consumed.add(it.origin)
-        for name, value in env.items():
+        for name, value in params_env.items():
             for it in value:
                 if isinstance(it, Ref):
                     self.consumed.add(it.origin)
